@@ -103,6 +103,7 @@ func main() {
 		keep      = flag.Bool("keep", false, "keep the scratch directory")
 		workers   = flag.Int("workers", 0, "worker processes (default: number of CPUs)")
 		noEvid    = flag.Bool("no-evidence", false, "do not write the evidence file")
+		evidOut   = flag.String("evidence-out", "", "write the evidence here instead of evidence/<id>.json")
 		verbose   = flag.Bool("v", false, "verbose replay (print the event log)")
 		digestOut = flag.String("digest-out", "", "workers write per-run event-log hashes to <path>.w<k> (determinism self-test)")
 	)
@@ -498,7 +499,13 @@ func main() {
 		os.MkdirAll(filepath.Join(verifDir, "evidence"), 0o755)
 		data, _ := json.MarshalIndent(ev, "", " ")
 
-		if err := os.WriteFile(filepath.Join(verifDir, "evidence", id+".json"), data, 0o644); err != nil {
+		dst := filepath.Join(verifDir, "evidence", id+".json")
+		if *evidOut != "" {
+			dst = *evidOut
+			os.MkdirAll(filepath.Dir(dst), 0o755)
+		}
+
+		if err := os.WriteFile(dst, data, 0o644); err != nil {
 			fatal2("%v", err)
 		}
 	}
